@@ -194,8 +194,9 @@ Definition thr_ok (vals : list Z) (chain : list nat) (hi ti : nat) (l : clq_loc)
   | DeqCASHead =>
     exists kh, kh <= hi /\ S kh <= ti /\ q_headPtr l = nth_error chain kh /\
                q_headNextPtr l = nth_error chain (S kh)
-  | DeqHeadNext => exists v, node_val vals (q_headNextPtr l) = Some v
-  | DeqRetVal => exists v, node_val vals (q_headNext l) = Some v
+  (* the node whose value is about to be read was published (linked into the chain) *)
+  | DeqHeadNext => exists x v, q_headNextPtr l = Some x /\ In x chain /\ nth_error vals x = Some v
+  | DeqRetVal => exists x v, q_headNext l = Some x /\ In x chain /\ nth_error vals x = Some v
   end.
 
 (* the node an Enqueue owns exclusively (allocated, not yet linked) *)
@@ -349,8 +350,14 @@ Proof.
     rewrite !Hpre by lia. repeat split; auto; lia.
   - destruct Hok as (kh & H1 & H2 & H3 & H4). exists kh.
     rewrite !Hpre by lia. repeat split; auto; lia.
-  - destruct Hok as (v & Hv). exists v. eapply node_val_mono; eauto.
-  - destruct Hok as (v & Hv). exists v. eapply node_val_mono; eauto.
+  - destruct Hok as (x & v & Hp & Hin & Hv). exists x, v. repeat split; auto.
+    apply In_nth_error in Hin. destruct Hin as [k Hk].
+    assert (Hkl : k < length chain) by (apply nth_error_Some; congruence).
+    apply (nth_error_In chain' k). rewrite (Hpre k Hkl). exact Hk.
+  - destruct Hok as (x & v & Hp & Hin & Hv). exists x, v. repeat split; auto.
+    apply In_nth_error in Hin. destruct Hin as [k Hk].
+    assert (Hkl : k < length chain) by (apply nth_error_Some; congruence).
+    apply (nth_error_In chain' k). rewrite (Hpre k Hkl). exact Hk.
 Qed.
 
 (* the phase a call must be in does not change when the heap grows *)
@@ -361,8 +368,8 @@ Lemma exp_phase_mono vals vals' chain hi ti l :
 Proof.
   intros Hok Hvals. unfold exp_phase, thr_ok in *.
   destruct (q_pc l); try reflexivity.
-  - destruct Hok as (v & Hv). rewrite Hv. rewrite (node_val_mono _ _ _ _ Hvals Hv). reflexivity.
-  - destruct Hok as (v & Hv). rewrite Hv. rewrite (node_val_mono _ _ _ _ Hvals Hv). reflexivity.
+  - destruct Hok as (x & v & Hp & _ & Hv). rewrite Hp. cbn [node_val]. rewrite Hv, (Hvals _ _ Hv). reflexivity.
+  - destruct Hok as (x & v & Hp & _ & Hv). rewrite Hp. cbn [node_val]. rewrite Hv, (Hvals _ _ Hv). reflexivity.
 Qed.
 
 (* ---------- updating the thread table ---------- *)
